@@ -33,6 +33,9 @@ AllDefects == {"srflxNoCloseOnReject",  \* gatherCandidatesSrflx: addCandidate e
                                         \* without it (repaired tree, 8a84c13) watcher and error paths share one sync.Once closer
                "handoffRace",           \* addCandidate checks ctx before loop.Run only; Run's select may still hand off (F-C18c)
                "closeSkipsOld",         \* Close waits for the latest cycle only; superseded cycles may still hold resources
+               "watcherOutlivesExchange",  \* the watcher stays armed after the STUN exchange, while the socket is handed to addCandidate: a
+                                        \* closing agent makes it close a socket that a candidate (or a duplicate's clean-up) already closes;
+                                        \* repaired: the gatherer retires the watcher (and waits for it) as soon as the exchange is over
                "watcherFollowsCycle"}   \* the loop.Done() watcher of the srflx gatherer gives up when its cycle is cancelled, so the closing
                                         \* agent no longer unblocks a superseded exchange (before 258732c); repaired: it lives until the
                                         \* gatherer returns
@@ -101,13 +104,16 @@ Start(c) ==
 \* the loop.Done() watcher of gatherCandidatesSrflx (armed while the STUN exchange and addCandidate run)
 WatcherOn(c) == site = "srflx-own" /\ wf[c] = "armed"
 WatcherFire(c) ==
-  /\ WatcherOn(c) /\ closing /\ pc[c] \in {"flight", "built", "handoff", "reject"}
+  /\ WatcherOn(c) /\ closing
+  /\ pc[c] \in (IF "watcherOutlivesExchange" \in Defects THEN {"flight", "built", "handoff", "reject"} ELSE {"flight"})
   /\ wf' = [wf EXCEPT ![c] = "fired"]
   /\ res' = [res EXCEPT ![c] = ClsS(res[c])]
   /\ pc' = [pc EXCEPT ![c] = IF pc[c] = "flight" THEN "ferr" ELSE pc[c]]   \* the pending read is aborted
   /\ UNCH_CYC /\ UNCH_ENV /\ UNCHANGED <<gs, aid, narr, own, comp, nils, nilg, npub, pubmix>>
 WatcherExit(c) ==
-  /\ WatcherOn(c) /\ (("watcherFollowsCycle" \in Defects /\ Dead(c)) \/ pc[c] \in {"finish", "done"})
+  /\ WatcherOn(c) /\ \/ "watcherFollowsCycle" \in Defects /\ Dead(c)
+                     \/ pc[c] \in {"finish", "done"}
+                     \/ "watcherOutlivesExchange" \notin Defects /\ pc[c] # "flight"      \* retired by the gatherer after the exchange
   /\ wf' = [wf EXCEPT ![c] = "exited"]
   /\ UNCH_CYC /\ UNCH_ENV /\ UNCHANGED <<gs, pc, aid, narr, res, own, comp, nils, nilg, npub, pubmix>>
 \* GetXORMappedAddr returned an error: closeConnAndLog
@@ -120,6 +126,7 @@ FlightErr(c) ==
 \* addCandidate, first half: ctx.Err()
 Check(c) ==
   /\ pc[c] = "built"
+  /\ "watcherOutlivesExchange" \in Defects \/ ~WatcherOn(c)      \* the gatherer waits until the watcher has gone
   /\ pc' = [pc EXCEPT ![c] = IF Dead(c) THEN "reject" ELSE "handoff"]
   /\ UNCH_CYC /\ UNCH_ENV /\ UNCHANGED <<gs, aid, narr, res, own, comp, wf, nils, nilg, npub, pubmix>>
 \* addCandidate, second half: loop.Run's select, then the task
